@@ -7,6 +7,7 @@ import (
 	"os"
 	"os/exec"
 	"strings"
+	"sync/atomic"
 	"time"
 
 	"github.com/rs/zerolog"
@@ -31,10 +32,27 @@ func FatalChild() {
 		out = slowStdout{}
 		n = 14
 	}
+	var cs *countingSlowStdout
+	if mode == "closing" || mode == "closing-poll" {
+		// a shutdown path closes the writer (from another goroutine) and, while that Close is
+		// draining a backlog into a slow destination, Fatal is called
+		cs = &countingSlowStdout{delay: 20 * time.Millisecond}
+		out = cs
+		n = 20
+		if mode == "closing-poll" {
+			poll = 2 * time.Millisecond
+		}
+	}
 	dw := diode.NewWriter(out, 64, poll, func(missed int) { fmt.Fprintf(os.Stderr, "missed %d\n", missed) })
 	l := zerolog.New(dw)
 	for i := 0; i < n; i++ {
 		l.Info().Int("i", i).Msg("before")
+	}
+	if cs != nil {
+		go dw.Close()
+		for t := time.Now(); atomic.LoadInt32(&cs.lines) < 2 && time.Since(t) < 3*time.Second; {
+			time.Sleep(200 * time.Microsecond)
+		}
 	}
 	l.Fatal().Msg("fatal-last-words")
 	os.Exit(7) // not reached
@@ -48,10 +66,17 @@ func fatalPath(c *hlib.Ctx) {
 		return
 	}
 	runs := 0
-	for _, mode := range []string{"wait", "poll", "slow"} {
+	for _, mode := range []string{"wait", "poll", "slow", "closing", "closing-poll"} {
 		for i := 0; i < 3; i++ {
 			if mode == "slow" && i > 0 {
 				break
+			}
+			if mode == "closing" || mode == "closing-poll" {
+				if i == 0 {
+					fatalWhileClosing(c, self, mode)
+					runs++
+				}
+				continue
 			}
 			cmd := exec.Command(self)
 			cmd.Env = append(os.Environ(), "VERIF_C11_FATAL="+mode)
@@ -77,6 +102,42 @@ func fatalPath(c *hlib.Ctx) {
 		}
 	}
 	c.Res.ExtraCoverage["fatal_path_runs"] = runs
+}
+
+// fatalWhileClosing: all "before" events were written (their Writes returned) before either Close was called; the
+// shutdown Close is draining them into a destination that takes 20 ms per write when Fatal is called.  Fatal's own
+// Close must not return (and the process must not exit) before they have all been handed to the destination.
+// The Fatal event itself is written after a Close was called: nothing is demanded about it.
+func fatalWhileClosing(c *hlib.Ctx, self, mode string) {
+	cmd := exec.Command(self)
+	cmd.Env = append(os.Environ(), "VERIF_C11_FATAL="+mode)
+	var out, errb bytes.Buffer
+	cmd.Stdout, cmd.Stderr = &out, &errb
+	err := cmd.Run()
+	code := -1
+	if ee, ok := err.(*exec.ExitError); ok {
+		code = ee.ExitCode()
+	} else if err == nil {
+		code = 0
+	}
+	before := strings.Count(out.String(), "\"message\":\"before\"")
+	if code != 1 || before != 20 {
+		c.Violate(hlib.Violation{Key: "fatal-loses-messages", Monitor: "fatal-path", Desc: fmt.Sprintf("20 events logged through a diode.Writer (ring 64) over a destination that takes 20 ms per write; a goroutine calls Writer.Close (shutdown) and, once the drain is under way, Logger.Fatal is called: the process must exit 1 only after all 20 events reached the destination; %d did, exit code %d", before, code),
+			Case: map[string]interface{}{"mode": mode, "events_before": 20, "destination_takes_per_write": "20ms", "ring": 64, "order": "20 x Info (returned); go Writer.Close(); wait until 2 events reached the destination; Logger.Fatal"},
+			Observed: map[string]interface{}{"exit": code, "before_events_on_stdout": before, "stdout": out.String(), "stderr": errb.String()}, Expected: "exit 1 with 20 'before' events on stdout"})
+	}
+}
+
+type countingSlowStdout struct {
+	delay time.Duration
+	lines int32
+}
+
+func (w *countingSlowStdout) Write(p []byte) (int, error) {
+	time.Sleep(w.delay)
+	n, err := os.Stdout.Write(p)
+	atomic.AddInt32(&w.lines, 1)
+	return n, err
 }
 
 type slowStdout struct{}
